@@ -136,6 +136,13 @@ class Builder:
             return txn_access(pt.Gtxn[node["i"][0]], node["s"])[node["i"][1]]
         if k == "GtxnS":
             return txn_access(pt.Gtxn[B(a[0])], node["s"])()
+        if k == "GtxnAS":
+            return txn_access(pt.Gtxn[node["i"][0]], node["s"])[B(a[0])]
+        if k == "GtxnSA":
+            return txn_access(pt.Gtxn[B(a[0])], node["s"])[node["i"][0]]
+        if k == "GtxnSAS":
+            g = B(a[0])
+            return txn_access(pt.Gtxn[g], node["s"])[B(a[1])]
         if k == "Global":
             return pt.Global(_GLOBAL_BY_ARG[node["s"]])
         if k == "LsigArg":
